@@ -23,7 +23,8 @@ func (t *texpr) toks() string {
 }
 
 type value struct {
-	kind byte // N I F S B Y Q H A @ & ^
+	kind byte // N I F S B Y Q H A @ & ^ K   (K: concat onto the empty prefix of field f of v<n>; arr = new elements)
+	f    int
 	n    int
 	arr  []*value
 }
@@ -32,6 +33,12 @@ func (v *value) toks() string {
 	switch v.kind {
 	case 'N', 'Y', 'Q', 'H':
 		return string(v.kind)
+	case 'K':
+		s := fmt.Sprintf("K%d.%d A%d", v.n, v.f, len(v.arr))
+		for _, e := range v.arr {
+			s += " " + e.toks()
+		}
+		return s
 	case 'A':
 		s := fmt.Sprintf("A%d", len(v.arr))
 		for _, e := range v.arr {
@@ -92,6 +99,9 @@ func (o *op) toks() string {
 		return s
 	case 'C':
 		s := fmt.Sprintf("C %d %d %d", o.id, o.s, len(o.args))
+		if o.shape == 'a' || o.shape == 'f' {
+			s = fmt.Sprintf("C%c %d %d %d", o.shape, o.id, o.s, len(o.args))
+		}
 		for _, a := range o.args {
 			s += " " + a.k.toks() + " " + a.v.toks()
 		}
@@ -173,6 +183,16 @@ func (ts *tokens) value() *value {
 	switch t[0] {
 	case 'N', 'Y', 'Q', 'H':
 		return &value{kind: t[0]}
+	case 'K':
+		var j, f int
+		if _, err := fmt.Sscanf(t, "K%d.%d", &j, &f); err != nil {
+			panic("bad K token " + t)
+		}
+		a := ts.value()
+		if a.kind != 'A' {
+			panic("K needs an array")
+		}
+		return &value{kind: 'K', n: j, f: f, arr: a.arr}
 	case 'A':
 		n := num(t)
 		v := &value{kind: 'A'}
@@ -215,7 +235,10 @@ func parseStep(s string) *op {
 			f := num(ts.next())
 			o.fields = append(o.fields, fdecl{f, ts.texpr()})
 		}
-	case "C":
+	case "C", "Ca", "Cf":
+		if len(k) == 2 {
+			o.shape = k[1]
+		}
 		o.id = ts.int()
 		o.s = ts.int()
 		n := ts.int()
